@@ -363,6 +363,21 @@ pub fn replay_unit(ctx: &Ctx) -> i32 {
         println!("INCONCLUSIVE property={}: cannot read replay file {}", ctx.prop, path.display());
         return EXIT_INCONCLUSIVE;
     };
+    if v["variant"].as_str() == Some("empty-ok") {
+        // accepted, but nothing generated: re-expand the saved request
+        let src = v["source"].as_str().unwrap_or("");
+        return match engine::expand_src(src) {
+            engine::Expansion::Ok(t) if t.trim().is_empty() => {
+                println!("VIOLATION property={} replay={}", ctx.prop, path.display());
+                println!("  detail: the request is accepted and nothing is generated");
+                EXIT_VIOLATION
+            },
+            _ => {
+                println!("PASS property={} replay={} (items or a diagnostic)", ctx.prop, path.display());
+                EXIT_OK
+            },
+        };
+    }
     let Some(body) = v["unit_body"].as_str() else {
         println!("INCONCLUSIVE property={}: replay file has no unit_body", ctx.prop);
         return EXIT_INCONCLUSIVE;
@@ -398,6 +413,21 @@ pub fn replay_unit_panic(ctx: &Ctx, path: &Path) -> i32 {
         println!("INCONCLUSIVE property={}: cannot read replay file {}", ctx.prop, path.display());
         return EXIT_INCONCLUSIVE;
     };
+    if v["variant"].as_str() == Some("empty-ok") {
+        // accepted, but nothing generated: re-expand the saved request
+        let src = v["source"].as_str().unwrap_or("");
+        return match engine::expand_src(src) {
+            engine::Expansion::Ok(t) if t.trim().is_empty() => {
+                println!("VIOLATION property={} replay={}", ctx.prop, path.display());
+                println!("  detail: the request is accepted and nothing is generated");
+                EXIT_VIOLATION
+            },
+            _ => {
+                println!("PASS property={} replay={} (items or a diagnostic)", ctx.prop, path.display());
+                EXIT_OK
+            },
+        };
+    }
     let Some(body) = v["unit_body"].as_str() else {
         println!("INCONCLUSIVE property={}: replay file has no unit_body", ctx.prop);
         return EXIT_INCONCLUSIVE;
